@@ -27,14 +27,14 @@ type Violation struct {
 }
 
 type Ctx struct {
-	Prop    string
-	Tier    string
-	Seed    uint64
-	OutDir  string
+	Prop     string
+	Tier     string
+	Seed     uint64
+	OutDir   string
 	Thorough bool
 
-	cases *bufio.Writer
-	goOut *bufio.Writer
+	cases  *bufio.Writer
+	goOut  *bufio.Writer
 	fc, fg *os.File
 
 	Evaluations int
